@@ -43,6 +43,9 @@ def build(case):
     rng = random.Random(case["seed"])
     fmt = case["fmt"]
     pal = shifted_palette(case["pal"]) if case.get("pal") is not None else M.rand_palette(rng)
+    if case.get("highbits"):
+        # bits 6 and 7 of a palette register are don't-care on the hardware: files carry them, the colour is the low six bits
+        pal = [v | rng.choice([64, 128, 192]) for v in pal]
     kind = case.get("kind", "random")
     if fmt == "hrs":
         w, h = case.get("w", 320), case.get("h", 192)
@@ -93,8 +96,9 @@ def build(case):
 def check_vef(cl, exp):
     _, codes, w, h = exp
     p = cl["png"]
-    if p["width"] != w or p["height"] not in (h, 2 * h):
-        return 0, ("size", (p["width"], p["height"]), (w, h))
+    want_h = h * (2 if w == 640 else 1)          # only the 640-wide screen types are written with doubled rows
+    if p["width"] != w or p["height"] != want_h:
+        return 0, ("size", 0, (p["width"], p["height"]), (w, want_h))
     stretch = p["height"] // h
     n = 0
     pal = p["palette"]
@@ -157,6 +161,13 @@ def cases(tier, seed):
         if not q or k % 8 == 0:
             yield c(fmt="vef", vt=1, kind="alt", pal=k)
             yield c(fmt="vef", vt=3, kind="alt", pal=k)
+    for vt in (0, 1, 3):
+        for kind in ("random", "alt"):
+            yield c(fmt="vef", vt=vt, kind=kind, highbits=True)
+    for kind in ("random", "alt"):
+        yield c(fmt="hrs", w=32, h=4, kind=kind, highbits=True)
+        yield c(fmt="mge", rgb=True, kind=kind, highbits=True)
+        yield c(fmt="cm3", two=False, pat=False, kind=kind, highbits=True)
     kinds = M.PIXEL_KINDS
     # HRS geometries
     for kind in kinds:
